@@ -1,6 +1,6 @@
-\* EXPECTED VIOLATION: not publishing cancelled results alone does not repair F8b
+\* EXPECTED VIOLATION (F8c): respawning all diagnostics without dropping results of superseded tasks
 CONSTANTS
- Docs = {"d1", "d2"}
+ Docs = {"d1"}
  Mode = "conc"
  MaxEdits = 2
  MaxReqs = 0
@@ -10,7 +10,7 @@ CONSTANTS
  ReadWithLiveVfs = FALSE
  ConvertWithLiveVfs = FALSE
  CancelledDiagPublishesEmpty = FALSE
- RespawnAllDiags = FALSE
+ RespawnAllDiags = TRUE
  PublishOnlyLatest = FALSE
  HoldVfsAcrossApply = FALSE
  SnapshotInTask = FALSE
